@@ -298,12 +298,21 @@ Definition lz4_encode (rawenc : bytes -> option bytes) (data : bytes) : option b
   | Some blk => Some (be32 (blen data) ++ blk)
   end.
 
+(* n, err := lz4.UncompressBlock(data[4:], buf); if err == nil && uint32(n) != uncompressedLength { error }
+   (0 <= n <= len(buf) < 2^32, so uint32(n) is n; a decoder returning more than it was asked for would make
+   buf[:n] panic in Go and is an error here) *)
+Definition lz4_checked (rawdec : bytes -> Z -> option bytes) (src : bytes) (n : Z) : option bytes :=
+  match rawdec src n with
+  | Some out => if blen out =? n then Some out else None
+  | None => None
+  end.
+
 Definition lz4_decode (rawdec : bytes -> Z -> option bytes) (data : bytes) : option bytes :=
   if (length data <? 4)%nat then None
   else
     let n := be32_val data in
     if n =? 0 then Some []
-    else rawdec (skipn 4 data) n.
+    else lz4_checked rawdec (skipn 4 data) n.
 
 Definition lz4_codec (rawenc : bytes -> option bytes) (rawdec : bytes -> Z -> option bytes) : codec :=
   mkCodec name_lz4 (lz4_encode rawenc) (lz4_decode rawdec).
